@@ -109,8 +109,9 @@ func genC08(rng *rand.Rand, tier string) *sim.Plan {
 				ph2.Ops = append(ph2.Ops, dop)
 			case k < 3 && v5:
 				dop := sim.Op{K: "disconnect", C: i, Code: 0x04}
-				if e != 0 && chance(rng, 0.4) {
-					dop.DiscExpS = sim.U32(uint32(pick(rng, []int{1, 4, 30})))
+				if e != 0 && chance(rng, 0.5) {
+					// (0: the DISCONNECT ends the session, a delayed will is due at once)
+					dop.DiscExpS = sim.U32(uint32(pick(rng, []int{0, 0, 1, 4, 30})))
 				}
 				ph2.Ops = append(ph2.Ops, dop)
 			case k < 6:
